@@ -80,6 +80,13 @@ def r09_1_2(prog: Program, rep: Report):
             if e[0] == "assign" and e[1] == "child":
                 child = e[2]
         skipped = [(g, pol) for g, pol in p.guards() if g[0] == "cmp" and g[1] == "in" and g[2] == child and g[3][0] in ("tuple", "set", "list")]
+        via_pred = [(g, pol) for g, pol in p.guards() if T.is_call_to(g, f"{C.INSP}.isunresolvable") and g[2] == (child,)]
+        if via_pred and via_pred[0][1]:
+            un = P.module_term(prog, prog.module(C.INSP), "_UNRESOLVABLE")
+            skipset = sorted(T.refname(x) or T.show(x) for x in un[1]) if un[0] in ("tuple", "list", "set") else ["<_UNRESOLVABLE>"]
+            if nodes:
+                ok_skip = False
+            continue
         if skipped and skipped[0][1]:
             skipset = sorted(T.refname(x) or T.show(x) for x in skipped[0][0][3][1])
             if nodes:
@@ -121,6 +128,18 @@ def drops_subscript(prog: Program, fn: str) -> bool:
     return False
 
 
+def drops_qualifier(prog: Program, fn: str) -> bool:
+    """Does the function return only the last dotted component of a name?"""
+    f = prog.functions.get(fn)
+    if f is None:
+        return False
+    for p, r in P.returns(P.paths_of(prog, f)):
+        for s in T.walk(r):
+            if s[0] == "sub" and s[2] == ("const", -1) and s[1][0] == "call" and s[1][1][0] == "attr" and s[1][1][2] in ("rsplit", "split", "rpartition") and (not s[1][2] or s[1][2][0] == ("const", ".")):
+                return True
+    return False
+
+
 def r09_5(prog: Program, rep: Report):
     f, ps = graph_paths(prog)
     q = f.qualname
@@ -144,6 +163,7 @@ def r09_5(prog: Program, rep: Report):
         return
     name_bad = mod_bad = False
     name_why = mod_why = ""
+    qual_bad = ""
     for c, child, not_class in calls.values():
         first = c[2][0] if c[2] else None
         kw = dict(c[3])
@@ -153,6 +173,9 @@ def r09_5(prog: Program, rep: Report):
             if droppers and admits_subscripted:
                 name_bad = True
                 name_why = f"the reference name is computed by {droppers[0].rsplit('.', 1)[-1]}(child), which cuts the string at '[', while the cut also takes subscripted generics: list[Node] is deferred as ForwardRef('list')"
+            shorteners = [T.refname(s[1]) for s in T.walk(first) if s[0] == "call" and T.refname(s[1]) and s[2] and s[2][0] == child and drops_qualifier(prog, T.refname(s[1]))]
+            if shorteners and not not_class:
+                qual_bad = f"the reference to a class is named by {shorteners[0].rsplit('.', 1)[-1]}(child), which keeps only the last dotted component: the nested class Order.Item is deferred as ForwardRef('Item'), which names nothing (or another class) in its module"
         if module is not None and child is not None:
             from_qual = [s for s in T.walk(module) if s[0] == "call" and T.refname(s[1]) in (f"{C.INSP}.qualname", f"{C.INSP}.name")]
             from_qualattr = [s for s in T.walk(module) if s[0] == "attr" and s[2] in ("__qualname__", "__name__")]
@@ -162,6 +185,7 @@ def r09_5(prog: Program, rep: Report):
                 mod_why = "module= is derived from the child's qualified name (a __qualname__ never contains the module): Outer.Inner is deferred with module='Outer'"
     rep.check(not name_bad, "R09.5", q, f.loc, "the deferred node's name keeps the child's parameters", name_why, detail="name<-qualname")
     rep.check(not mod_bad, "R09.5", q, f.loc, "the deferred node's module comes from the child's __module__", mod_why, detail="module<-qualname")
+    rep.check(not qual_bad, "R09.5", q, f.loc, "a deferred class is named by its whole qualified name", qual_bad, detail="name-keeps-qualifier")
 
 
 def r09_3(prog: Program, rep: Report):
@@ -227,8 +251,17 @@ def run(prog: Program, rep: Report, tier: str):
     rep.rule("R09.2", "forward-ref node ⇔ cyclic flag ⇔ revisit", floor=2)
     rep.rule("R09.3", "_level = generic arguments ∪ type hints of the unwrapped parent", floor=3)
     rep.rule("R09.4", "reference inputs delegate to the memoised self; plain inputs = [*itertypes(t)]", floor=4)
-    rep.rule("R09.5", "deferred node denotes exactly the type (name and module provenance)", floor=2)
+    rep.rule("R09.6", "termination: revisits of every type with members are cut (shared with R07.6)", floor=1)
+    rep.rule("R09.5", "deferred node denotes exactly the type (name and module provenance)", floor=3)
     r09_1_2(prog, rep)
     r09_3(prog, rep)
     r09_4(prog, rep)
     r09_5(prog, rep)
+    # termination: the cut covers every type with members (shared with R07.6)
+    from ..report import Report as _R, absorb
+    from . import c07
+
+    sub = _R("C09", tier)
+    sub.rule("R07.6", "", 0)
+    c07.r07_6(prog, sub)
+    absorb(rep, sub, {"R07.6": "R09.6"})
